@@ -13,6 +13,7 @@ import (
 	"net"
 	"net/netip"
 	"os"
+	"runtime"
 	"strings"
 	"sync"
 	"testing"
@@ -38,6 +39,19 @@ func vc17LoopIP() netip.Addr {
 // reply.
 type vc17ReplyFunc func(network string, req []byte) (resp []byte, closeConn bool)
 
+// vc17Out is a scripted reply that may consist of several messages (UDP: one
+// datagram each; TCP: framed and written one after the other).  split > 0
+// makes the TCP bytes go out in two writes, cut at that offset.
+type vc17Out struct {
+	msgs      [][]byte
+	split     int
+	closeConn bool
+}
+
+// vc17ReplyNFunc is the multi-message form of vc17ReplyFunc; if set it takes
+// precedence.
+type vc17ReplyNFunc func(network string, req []byte) vc17Out
+
 // vc17Srv is a scripted DNS server on one UDP and one TCP socket with the same
 // port.
 type vc17Srv struct {
@@ -46,6 +60,7 @@ type vc17Srv struct {
 
 	mu      sync.Mutex
 	reply   vc17ReplyFunc
+	replyN  vc17ReplyNFunc
 	udpSeen int
 	tcpSeen int
 	conns   map[net.Conn]struct{}
@@ -58,11 +73,12 @@ type vc17Srv struct {
 	// craftErr is set when a scripted reply could not be built: harness error.
 	craftErr error
 
-	up     bool
-	udp    *net.UDPConn
-	tcp    *net.TCPListener
-	wg     sync.WaitGroup
-	connWg sync.WaitGroup
+	up    bool
+	tcpUp bool
+	udp   *net.UDPConn
+	tcp   *net.TCPListener
+	wg    sync.WaitGroup
+	tcpWg sync.WaitGroup
 }
 
 func (s *vc17Srv) addr() netip.AddrPort { return netip.AddrPortFrom(s.ip, s.port) }
@@ -104,12 +120,48 @@ func (s *vc17Srv) open() (err error) {
 	s.mu.Lock()
 	s.conns = map[net.Conn]struct{}{}
 	s.mu.Unlock()
-	s.up = true
+	s.up, s.tcpUp = true, true
 
 	udp, tcp := s.udp, s.tcp
-	s.wg.Add(2)
+	s.wg.Add(1)
+	s.tcpWg.Add(1)
 	go s.serveUDP(udp)
 	go s.serveTCP(tcp)
+
+	return nil
+}
+
+// closeTCP closes the TCP side only: the listener and every accepted
+// connection.  The UDP socket keeps answering.
+func (s *vc17Srv) closeTCP() {
+	if !s.up || !s.tcpUp {
+		return
+	}
+
+	s.tcpUp = false
+	_ = s.tcp.Close()
+	s.mu.Lock()
+	for c := range s.conns {
+		_ = c.Close()
+	}
+	s.mu.Unlock()
+	s.tcpWg.Wait()
+}
+
+// openTCP undoes closeTCP.
+func (s *vc17Srv) openTCP() (err error) {
+	if !s.up || s.tcpUp {
+		return nil
+	}
+
+	s.tcp, err = net.ListenTCP("tcp4", net.TCPAddrFromAddrPort(s.addr()))
+	if err != nil {
+		return err
+	}
+
+	s.tcpUp = true
+	s.tcpWg.Add(1)
+	go s.serveTCP(s.tcp)
 
 	return nil
 }
@@ -121,14 +173,9 @@ func (s *vc17Srv) close() {
 		return
 	}
 
+	s.closeTCP()
 	s.up = false
 	_ = s.udp.Close()
-	_ = s.tcp.Close()
-	s.mu.Lock()
-	for c := range s.conns {
-		_ = c.Close()
-	}
-	s.mu.Unlock()
 	s.wg.Wait()
 }
 
@@ -137,6 +184,13 @@ func (s *vc17Srv) setReply(f vc17ReplyFunc) {
 	defer s.mu.Unlock()
 
 	s.reply = f
+}
+
+func (s *vc17Srv) setReplyN(f vc17ReplyNFunc) {
+	s.mu.Lock()
+	defer s.mu.Unlock()
+
+	s.replyN = f
 }
 
 func (s *vc17Srv) seen() (udp, tcp int) {
@@ -165,10 +219,19 @@ func (s *vc17Srv) serveUDP(c *net.UDPConn) {
 
 		s.mu.Lock()
 		s.udpSeen++
-		f := s.reply
+		f, fn := s.reply, s.replyN
 		s.mu.Unlock()
 
-		resp, _ := f("udp", append([]byte(nil), buf[:n]...))
+		req := append([]byte(nil), buf[:n]...)
+		if fn != nil {
+			for _, m := range fn("udp", req).msgs {
+				_, _ = c.WriteToUDPAddrPort(m, from)
+			}
+
+			continue
+		}
+
+		resp, _ := f("udp", req)
 		if resp != nil {
 			_, _ = c.WriteToUDPAddrPort(resp, from)
 		}
@@ -176,7 +239,7 @@ func (s *vc17Srv) serveUDP(c *net.UDPConn) {
 }
 
 func (s *vc17Srv) serveTCP(l *net.TCPListener) {
-	defer s.wg.Done()
+	defer s.tcpWg.Done()
 
 	for {
 		c, err := l.Accept()
@@ -188,8 +251,7 @@ func (s *vc17Srv) serveTCP(l *net.TCPListener) {
 		s.conns[c] = struct{}{}
 		s.mu.Unlock()
 
-		s.wg.Add(1)
-		s.connWg.Add(1)
+		s.tcpWg.Add(1)
 		go s.serveTCPConn(c)
 	}
 }
@@ -236,19 +298,29 @@ func (s *vc17Srv) pairWait() {
 	}
 }
 
-// dropConns closes every established TCP connection but keeps listening.
+// dropConns closes every established TCP connection but keeps listening, and
+// waits until their goroutines are gone.
 func (s *vc17Srv) dropConns() {
 	s.mu.Lock()
 	for c := range s.conns {
 		_ = c.Close()
 	}
 	s.mu.Unlock()
-	s.connWg.Wait()
+
+	for {
+		s.mu.Lock()
+		n := len(s.conns)
+		s.mu.Unlock()
+		if n == 0 {
+			return
+		}
+
+		runtime.Gosched()
+	}
 }
 
 func (s *vc17Srv) serveTCPConn(c net.Conn) {
-	defer s.wg.Done()
-	defer s.connWg.Done()
+	defer s.tcpWg.Done()
 	defer func() {
 		_ = c.Close()
 		s.mu.Lock()
@@ -271,8 +343,39 @@ func (s *vc17Srv) serveTCPConn(c net.Conn) {
 
 		s.mu.Lock()
 		s.tcpSeen++
-		f := s.reply
+		f, fn := s.reply, s.replyN
 		s.mu.Unlock()
+
+		if fn != nil {
+			o := fn("tcp", req)
+			var out []byte
+			for _, m := range o.msgs {
+				out = binary.BigEndian.AppendUint16(out, uint16(len(m)))
+				out = append(out, m...)
+			}
+
+			if o.split > 0 && o.split < len(out) {
+				if _, err := c.Write(out[:o.split]); err != nil {
+					return
+				}
+
+				// Let the first part travel on its own.
+				time.Sleep(time.Millisecond)
+				out = out[o.split:]
+			}
+
+			if len(out) > 0 {
+				if _, err := c.Write(out); err != nil {
+					return
+				}
+			}
+
+			if o.closeConn {
+				return
+			}
+
+			continue
+		}
 
 		resp, closeConn := f("tcp", req)
 		if resp != nil {
@@ -451,10 +554,10 @@ func vc17DrawSpec(t *rapid.T, label string, name string, qtype uint16, tcp bool)
 			s.AltType = qtype + 1
 		}
 	case "garbage":
-		s.Garbage = rapid.SliceOfN(rapid.Byte(), minDNSMessageSize, 120).Draw(t, label+"Garbage")
+		s.Garbage = rapid.SliceOfN(rapid.Byte(), vc17MinMsg, 120).Draw(t, label+"Garbage")
 		s.IDMask = uint16(rapid.IntRange(0, 1).Draw(t, label+"GarbageKeepsOwnID"))
 	case "short":
-		s.Cut = rapid.IntRange(0, minDNSMessageSize-1).Draw(t, label+"Cut")
+		s.Cut = rapid.IntRange(0, vc17MinMsg-1).Draw(t, label+"Cut")
 	}
 
 	return s
@@ -614,8 +717,15 @@ func TestVerifC17Accept(t *testing.T) {
 				classes = append(classes, "udp-case-only-accepted")
 			}
 		case us.valid() && us.TC && nw == NetworkAny:
-			// Truncated: the query is retried over TCP and that reply decides.
-			viaTCP()
+			// Truncated: the query is retried over TCP; a valid TCP reply
+			// decides.  Without one, the statement allows a failure as well as
+			// the (matching) truncated reply.
+			if cs.valid() {
+				accept("tcp")
+			} else if err == nil && from != "udp" {
+				fail("neither a failure nor the truncated UDP reply after an invalid TCP reply")
+			}
+
 			if cs.valid() {
 				classes = append(classes, "tc-then-tcp-valid")
 			} else {
@@ -650,9 +760,9 @@ func TestVerifC17Accept(t *testing.T) {
 			}
 
 			switch {
-			case n == minDNSMessageSize:
+			case n == vc17MinMsg:
 				classes = append(classes, "reply-of-minimal-size-accepted", "reply-of-minimal-size-accepted-over-"+from)
-			case n <= minDNSMessageSize+16:
+			case n <= vc17MinMsg+16:
 				classes = append(classes, fmt.Sprintf("reply-of-%d-octets-accepted", n))
 			}
 		}
@@ -712,16 +822,33 @@ const (
 	vc17SockWrongID
 	vc17SockOtherName
 	vc17SockOtherType
+	// vc17SockStall: the server accepts connections and reads requests but
+	// never answers, so every exchange runs into the client's deadline.
+	vc17SockStall
 	// vc17SockUpTC: up, but every UDP reply is truncated, which sends clients
 	// that may use TCP there.
 	vc17SockUpTC
+	// vc17SockTCNoTCP: every UDP reply is truncated AND the TCP port refuses
+	// connections: a network error for clients that retry over TCP, a
+	// (truncated) reply for UDP-only clients.
+	vc17SockTCNoTCP
 	vc17SockModeCount
 )
 
-// vc17SockDownLast is the last of the modes 1..n in which a probe fails.
-const vc17SockDownLast = vc17SockOtherType
+// vc17SockDownLast is the last of the modes 1..n in which a probe fails
+// whatever the client's network; vc17SockInitLast is the last of those that
+// can be in force before the client exists.
+const (
+	vc17SockDownLast = vc17SockStall
+	vc17SockInitLast = vc17SockOtherType
+)
 
-var vc17SockModeNames = [...]string{"up", "servfail", "closed", "wrong-id", "other-name", "other-type", "up-tc"}
+// vc17StallTimeout is the client's exchange timeout while its server stalls.
+// The server never answers in that mode, so the value only sets how long the
+// inevitable time-out takes.
+const vc17StallTimeout = 10 * time.Millisecond
+
+var vc17SockModeNames = [...]string{"up", "servfail", "closed", "wrong-id", "other-name", "other-type", "stall", "up-tc", "tc-no-tcp"}
 
 func (m vc17SockMode) cat() vc17Cat {
 	switch m {
@@ -729,7 +856,7 @@ func (m vc17SockMode) cat() vc17Cat {
 		return vc17CatReplyOK
 	case vc17SockServfail:
 		return vc17CatReplyRcode
-	case vc17SockClosed:
+	case vc17SockClosed, vc17SockStall, vc17SockTCNoTCP:
 		return vc17CatNetErr
 	default:
 		return vc17CatPlainErr
@@ -738,7 +865,7 @@ func (m vc17SockMode) cat() vc17Cat {
 
 func (m vc17SockMode) spec(network string) vc17Spec {
 	switch m {
-	case vc17SockUpTC:
+	case vc17SockUpTC, vc17SockTCNoTCP:
 		return vc17Spec{Kind: "exact", TC: network == "udp"}
 	case vc17SockServfail:
 		return vc17Spec{Kind: "exact", Rcode: dns.RcodeServerFailure}
@@ -765,6 +892,8 @@ type vc17SockNode struct {
 	idx  int
 	mode vc17SockMode
 	nw   Network
+	// timeout is the configured exchange timeout of the client.
+	timeout time.Duration
 
 	// deadIdle is the number of idle pooled TCP connections of the client
 	// that the server has closed.
@@ -791,7 +920,19 @@ func (n *vc17SockNode) idleTCP() int {
 }
 
 func (n *vc17SockNode) vc17Name() string { return n.name }
-func (n *vc17SockNode) vc17Cat() vc17Cat { return n.mode.cat() }
+func (n *vc17SockNode) vc17Cat() vc17Cat {
+	if n.mode == vc17SockTCNoTCP {
+		switch n.nw {
+		case NetworkUDP:
+			// A UDP-only client never notices the closed TCP port.
+			return vc17CatReplyOK
+		case NetworkAny:
+			return vc17CatTruncOrNetErr
+		}
+	}
+
+	return n.mode.cat()
+}
 
 func (n *vc17SockNode) Exchange(ctx context.Context, req *dns.Msg) (resp *dns.Msg, nw Network, err error) {
 	q := req.Question[0]
@@ -804,6 +945,15 @@ func (n *vc17SockNode) Exchange(ctx context.Context, req *dns.Msg) (resp *dns.Ms
 // bound again.
 func (n *vc17SockNode) setMode(m vc17SockMode) (err error) {
 	n.mode = m
+	if n.UpstreamPlain != nil {
+		// The timeout is configuration; it is switched together with the
+		// server so that a stalling server costs milliseconds, not seconds.
+		n.UpstreamPlain.timeout = n.timeout
+		if m == vc17SockStall {
+			n.UpstreamPlain.timeout = vc17StallTimeout
+		}
+	}
+
 	if m == vc17SockClosed {
 		if n.srv.up {
 			n.deadIdle = n.idleTCP()
@@ -815,12 +965,27 @@ func (n *vc17SockNode) setMode(m vc17SockMode) (err error) {
 	}
 
 	who := n.name
-	n.srv.setReply(func(network string, req []byte) ([]byte, bool) { return vc17Craft(m.spec(network), req, who) })
+	n.srv.setReply(func(network string, req []byte) ([]byte, bool) {
+		if m == vc17SockStall {
+			return nil, false
+		}
+
+		return vc17Craft(m.spec(network), req, who)
+	})
 	if !n.srv.up {
-		return n.srv.open()
+		if err = n.srv.open(); err != nil {
+			return err
+		}
 	}
 
-	return nil
+	if m == vc17SockTCNoTCP {
+		n.deadIdle = n.idleTCP()
+		n.srv.closeTCP()
+
+		return nil
+	}
+
+	return n.srv.openTCP()
 }
 
 // dropConns makes the server close its established connections while staying
@@ -836,11 +1001,13 @@ func (n *vc17SockNode) dropConns() {
 
 func TestVerifC17Sockets(t *testing.T) {
 	st := vstat.New("C17", "forward.sockets",
-		"rapid histories (1-2 mains, 0-2 fallbacks, each a real UpstreamPlain (any/udp/tcp) built by NewHandler to its own loopback UDP+TCP server; construction with HealthcheckInitDuration 0 or >0 against servers that are already up/down/answering wrongly; ops: query, burst of 2-4 simultaneous queries, health-check round, server drops its established TCP connections but stays up, server switch among up / up with truncated UDP replies / SERVFAIL / sockets closed / wrong-ID / other-name / other-type replies, clock step around the backoff) against the same reference state machine; non-trivial = a health-check round finds a previously failed main up again, distinct by the whole history",
+		"rapid histories (1-2 mains, 0-2 fallbacks, each a real UpstreamPlain (any/udp/tcp) built by NewHandler to its own loopback UDP+TCP server; construction with HealthcheckInitDuration 0 or >0 against servers that are already up/down/answering wrongly; ops: query, burst of 2-4 simultaneous queries, health-check round, server drops its established TCP connections but stays up, query with a cancelled or expired context, health-check round with 1-3 queries in flight, server switch among up / up with truncated UDP replies / truncated UDP replies with the TCP port refusing / accepts but never answers / SERVFAIL / sockets closed / wrong-ID / other-name / other-type replies, clock step around the backoff) against the same reference state machine; non-trivial = a health-check round finds a previously failed main up again, distinct by the whole history",
 		"recovered-after-backoff", "blocked-in-backoff-while-up", "neterr-fallback-ok", "neterr-fallback-fails",
 		"all-down-query-to-fallback", "plainerr-no-fallback", "no-fallbacks-refresh-with-down-main",
 		"init-probe-failed-no-fallbacks", "init-probe-failed-with-fallbacks",
-		"query-after-established-conns-dropped-with-2+-idle")
+		"query-after-established-conns-dropped-with-2+-idle", "query-to-stalling-main", "query-truncated-then-tcp-refused",
+		"query-truncated-then-tcp", "query-to-main-with-timeout-zero", "query-with-dead-context", "queries-during-health-check",
+		"query-before-first-health-check", "refresh-reports-all-mains-down")
 	st.Finish(t)
 
 	ctx := context.Background()
@@ -883,7 +1050,8 @@ func TestVerifC17Sockets(t *testing.T) {
 
 			nw := rapid.SampledFrom([]Network{NetworkAny, NetworkAny, NetworkUDP, NetworkTCP, NetworkTCP}).Draw(t, "network")
 			n.nw = nw
-			conf := &UpstreamPlainConfig{Network: nw, Address: n.srv.addr(), Timeout: vc17Timeout}
+			n.timeout = rapid.SampledFrom([]time.Duration{vc17Timeout, vc17Timeout, vc17Timeout, 0}).Draw(t, "timeout")
+			conf := &UpstreamPlainConfig{Network: nw, Address: n.srv.addr(), Timeout: n.timeout}
 			if n.main {
 				mains, mainConfs = append(mains, n), append(mainConfs, conf)
 			} else {
@@ -902,7 +1070,7 @@ func TestVerifC17Sockets(t *testing.T) {
 			n.env = e
 			m := vc17SockUp
 			if rapid.Bool().Draw(t, "initiallyDown") {
-				m = vc17SockMode(rapid.IntRange(1, int(vc17SockDownLast)).Draw(t, "initMode"))
+				m = vc17SockMode(rapid.IntRange(1, int(vc17SockInitLast)).Draw(t, "initMode"))
 				initDown = initDown || n.main
 			}
 
@@ -979,7 +1147,23 @@ func TestVerifC17Sockets(t *testing.T) {
 			return true
 		}
 
+		// settle takes the nodes out of the state in which a health check is
+		// not decided: the server goes down completely.
+		settle := func() bool {
+			for _, n := range nodes {
+				if n.vc17Cat() == vc17CatTruncOrNetErr && !setMode(n, vc17SockClosed) {
+					return false
+				}
+			}
+
+			return true
+		}
+
 		refresh := func() bool {
+			if !settle() {
+				return false
+			}
+
 			opStart = time.Now()
 			if err := e.refresh(ctx, fail); err != nil {
 				discarded = "clock-ambiguous-discarded"
@@ -994,11 +1178,68 @@ func TestVerifC17Sockets(t *testing.T) {
 			opStart = time.Now()
 			name := rapid.SampledFrom(vc17QNames).Draw(t, "qname")
 			qt := rapid.SampledFrom(vc17QTypes).Draw(t, "qtype")
-			e.query(ctx, fail, name, qt, rapid.Uint16().Draw(t, "id"))
+			qctx := ctx
+			if rapid.Bool().Draw(t, "ctxWithDeadline") {
+				// Like the real callers: a context with a (distant) deadline.
+				var cancel context.CancelFunc
+				qctx, cancel = context.WithTimeout(ctx, vc17Timeout)
+				defer cancel()
+			}
+
+			e.query(qctx, fail, name, qt, rapid.Uint16().Draw(t, "id"), rapid.Bool().Draw(t, "edns"))
+		}
+
+		doDeadCtxQuery := func() {
+			opStart = time.Now()
+			var qctx context.Context
+			var cancel context.CancelFunc
+			if rapid.Bool().Draw(t, "expiredNotCancelled") {
+				qctx, cancel = context.WithDeadline(ctx, time.Now().Add(-time.Second))
+			} else {
+				qctx, cancel = context.WithCancel(ctx)
+				cancel()
+			}
+			defer cancel()
+
+			e.queryWithDeadCtx(qctx, fail, rapid.SampledFrom(vc17QNames).Draw(t, "qname"), dns.TypeA, rapid.Uint16().Draw(t, "id"))
+		}
+
+		doConcurrent := func() bool {
+			if !settle() {
+				return false
+			}
+
+			opStart = time.Now()
+			k := rapid.IntRange(1, 3).Draw(t, "during")
+			ids := make([]uint16, k)
+			for i := range ids {
+				ids[i] = rapid.Uint16().Draw(t, "id")
+			}
+
+			if err := e.concurrent(ctx, fail, rapid.SampledFrom(vc17QTypes).Draw(t, "qtype"), ids); err != nil {
+				discarded = "clock-ambiguous-discarded"
+
+				return false
+			}
+
+			return true
 		}
 
 		e.onMainAsked = func(idx int) {
 			n := nodes[idx]
+			switch {
+			case n.mode == vc17SockStall:
+				e.class("query-to-stalling-main")
+			case n.mode == vc17SockTCNoTCP && n.nw != NetworkUDP:
+				e.class("query-truncated-then-tcp-refused")
+			case n.mode == vc17SockUpTC && n.nw == NetworkAny:
+				e.class("query-truncated-then-tcp")
+			}
+
+			if n.timeout == 0 {
+				e.class("query-to-main-with-timeout-zero")
+			}
+
 			if !n.usesTCP() || !n.srv.up {
 				return
 			}
@@ -1049,9 +1290,45 @@ func TestVerifC17Sockets(t *testing.T) {
 		nOps := rapid.IntRange(3, 14).Draw(t, "nOps")
 	ops:
 		for range nOps {
-			switch rapid.IntRange(0, 13).Draw(t, "op") {
+			switch rapid.IntRange(0, 17).Draw(t, "op") {
 			case 0, 1, 2:
 				doQuery()
+			case 16, 17:
+				// Two mechanisms at once: a main in rotation starts to give
+				// truncated UDP replies while its TCP port refuses (or accepts
+				// and never answers); the TCP retry and the fail-over meet.
+				n := nodes[rapid.IntRange(0, nMain-1).Draw(t, "interactOf")]
+				if !setMode(n, vc17SockUp) {
+					break ops
+				}
+
+				e.advance(backoff + eps)
+				if !refresh() {
+					break ops
+				}
+
+				m := vc17SockTCNoTCP
+				if rapid.IntRange(0, 3).Draw(t, "stallInstead") == 0 {
+					m = vc17SockStall
+				}
+
+				if !setMode(n, m) {
+					break ops
+				}
+
+				doQuery()
+				doQuery()
+				if !refresh() {
+					break ops
+				}
+
+				doQuery()
+			case 14:
+				doDeadCtxQuery()
+			case 15:
+				if !doConcurrent() {
+					break ops
+				}
 			case 10:
 				doBurst()
 			case 11:
@@ -1085,8 +1362,8 @@ func TestVerifC17Sockets(t *testing.T) {
 				}
 			case 5, 6:
 				n := rapid.SampledFrom(nodes).Draw(t, "node")
-				m := vc17SockMode(rapid.IntRange(0, int(vc17SockModeCount)-1).Draw(t, "mode"))
-				if rapid.Bool().Draw(t, "closeInstead") {
+				m := vc17SockMode(rapid.IntRange(0, int(vc17SockUpTC)).Draw(t, "mode"))
+				if rapid.Bool().Draw(t, "closeInstead") || m == vc17SockStall && rapid.IntRange(0, 3).Draw(t, "stallRarely") != 0 {
 					m = vc17SockClosed
 				}
 
@@ -1103,6 +1380,10 @@ func TestVerifC17Sockets(t *testing.T) {
 			default:
 				n := nodes[rapid.IntRange(0, nMain-1).Draw(t, "outageOf")]
 				m := vc17SockMode(rapid.IntRange(1, int(vc17SockDownLast)).Draw(t, "outageMode"))
+				if m == vc17SockStall && rapid.IntRange(0, 3).Draw(t, "stallRarely") != 0 {
+					m = vc17SockClosed
+				}
+
 				if !setMode(n, m) || !refresh() {
 					break ops
 				}
